@@ -355,8 +355,13 @@ def rule_sel1(A: Analysis, rep):
         det = "fallback guard [%s]" % " | ".join(fmt_conj(cj) for cj in gs)
     rep.check(ok_d, "SEL1", "(d) null-commit fallback", fi.node, "newest version only when no version carries a commit", det)
     # (e) last return None
-    last = fi.node.body[-1]
-    rep.check(isinstance(last, ast.Return) and (last.value is None or norm(last.value) == "None"), "SEL1", "(e) otherwise nothing is reused", fi.node,
+    # every way out of the function is a `return`, and besides the three documented choices only `None` is returned
+    falls = [m for (m, lb) in g.exit.pred if lb != "ret" and not is_exc(lb)]
+    none_rets = [n for n in rets if n.ast.value is None or norm(n.ast.value) == "None"]
+    sel_name = locals().get("sel")
+    other = [n for n in rets if n not in none_rets and n not in a_rets and not (isinstance(n.ast.value, ast.Call) and norm(n.ast.value.func) == "max")
+             and not (sel_name is not None and norm(n.ast.value) == sel_name)]
+    rep.check(bool(none_rets) and not falls and not other, "SEL1", "(e) otherwise nothing is reused", fi.node,
               "", "the final fall-through does not return None (a non-ancestor version could be reused)")
     rep.expect_min("SEL1", 5)
 
@@ -421,10 +426,17 @@ def rule_one1(A: Analysis, rep):
         cs = sorted({f.fq.rsplit(".", 1)[1] for (f, c) in A.all_calls_to("VersionIndex." + q, exclude_pkgs=("conductor.explorer",))})
         rep.check(cs == ["_retrieve_most_relevant_existing_version"], "ONE1", "only the selector queries versions (%s)" % q, None, "", "%s is called by %s" % (q, cs))
     ens = A.fn(RUNX + "_ensure_most_relevant_existing_version_computed")
-    body = [norm(s) for s in ens.node.body]
     ctx = ens.params[1]
-    ok = body[:1] == ["if self._did_retrieve_version:\n    return"] and \
-        "self._most_relevant_version = self._retrieve_most_relevant_existing_version(%s)" % ctx in A_inline(A, ens) and body[-1] == "self._did_retrieve_version = True"
+    # memoised: the selector runs, and its result and the flag are stored, exactly when the flag was not set
+    ge = A.cfg(ens, "plain")
+    sel_n = [n for n in ge.nodes if n.kind == "stmt" and A.calls_in(n.ast, "RunExperiment._retrieve_most_relevant_existing_version")]
+    st_v = [n for n in ge.nodes if n.kind == "stmt" and isinstance(n.ast, ast.Assign) and norm(n.ast.targets[0]) == "self._most_relevant_version"]
+    st_f = [n for n in ge.nodes if n.kind == "stmt" and isinstance(n.ast, ast.Assign) and norm(n.ast.targets[0]) == "self._did_retrieve_version" and norm(n.ast.value) == "True"]
+    want_g = [frozenset({("t(self._did_retrieve_version)", False)})]
+    ok = len(sel_n) == 1 and len(st_v) == 1 and len(st_f) == 1 and all(A.path_guards(ge, ge.entry, n, ens) == want_g for n in sel_n + st_v + st_f)
+    if ok:
+        vals = {v for _c, v in A.rvalues(ens, st_v[0].ast.value, st_v[0], ge, keep=lambda a: False, calls=True)}
+        ok = vals == {"self._retrieve_most_relevant_existing_version(%s)" % ctx} and ge.all_paths_pass(sel_n[0], ge.exit, st_f, skip_labels=skip)
     rep.check(ok, "ONE1", "memoised once", ens.node, "", "_ensure_…_computed no longer memoises the selector's result")
     stores = sorted({f.name for (f, _s, _v) in A.field_stores("conductor.task_types.run.RunExperiment", "_most_relevant_version")})
     rep.check(stores == ["__init__", "_ensure_most_relevant_existing_version_computed", "create_new_version"], "ONE1", "writers of the selection", None, "",
@@ -432,11 +444,11 @@ def rule_one1(A: Analysis, rep):
     gp = A.fn(RUNX + "get_output_path")
     g = A.cfg(gp, "plain")
     en = [n for n in g.nodes if n.kind == "stmt" and A.calls_in(n.ast, "RunExperiment._ensure_most_relevant_existing_version_computed")]
-    reads = [n for n in g.nodes if n.kind in ("stmt", "test") and "self._most_relevant_version" in norm(n.ast)]
+    reads = [n for n in g.nodes if n.kind in ("stmt", "test") and n.ast is not None and "self._most_relevant_version" in norm(n.ast)]
     rep.check(bool(en) and all(g.all_paths_pass(g.entry, r, en, skip_labels=skip) for r in reads) and bool(reads), "ONE1", "get_output_path reads the selection", gp.node, "",
               "get_output_path reads the version before it was selected")
     r = [x for x in walk_local(gp.node) if isinstance(x, ast.Return) and x.value is not None and "with_name" in norm(x.value)]
-    rep.check(len(r) == 1 and norm(r[0].value) == "unversioned_path.with_name(f.task_output_dir(self.identifier, version=self._most_relevant_version))", "ONE1", "path of the selected version", gp.node,
+    rep.check(len(r) == 1 and A.xtext(r[0].value, gp, stop=["unversioned_path"]) == "unversioned_path.with_name(f.task_output_dir(self.identifier, version=self._most_relevant_version))", "ONE1", "path of the selected version", gp.node,
               "", "get_output_path does not name the selected version's directory")
     wh = A.fn("lib.path.where")
     ok = any(isinstance(c, ast.Call) and A.res.is_call_to(c, "TaskType.get_output_path") for c in walk_local(wh.node))
